@@ -245,6 +245,8 @@ def process(args: Tuple[List[Dict[str, Any]], int, int]) -> Dict[str, Any]:
     order = list(range(len(recs)))
     rng.shuffle(order)
     for k in order:
+        if len(fails) >= 40:
+            break           # enough to report (state that leaks between comparisons also makes every further one slower)
         rec = recs[k]
         st["cases"] += 1
         e = rec["edits"]
